@@ -40,7 +40,7 @@ def run(ctx):
             ctx.violation(mech, msg, case=dict(ops=h.d.ops[-40:], cycle=h.cycles, when=when))
 
     for idx, rng in ctx.cases():
-        h = mengine.MHistory(ctx, rng, mdrv.MProfile(), [])
+        h = mengine.MHistory(ctx, rng, mdrv.MProfile(weights={'partition_schedule': 4}), [])
         h.hooks.append(hook)
         try:
             h.run()
